@@ -3,8 +3,11 @@ import Gms.Model.RangeMap
 import Gms.Generated.C30
 open Gms.Proto Gms.RangeMap
 
-/-! Driver for C30. The tables and the "does `Encode` have the length guard" flag are the
-regenerated facts, so the Impl model follows the code that is there now. -/
+/-! Driver for C30. The tables are the regenerated facts. The Impl model of `Encode` is
+`Gms.RangeMap.encode` — the guarded loop of the repaired code (finding `encode_unrepresentable_tail`
+was repaired; `Gms.C30.facts_match` demands the guard in the source). There is no region for a
+panicking `Encode` any more: a case on which the real code panics disagrees with the model and with
+the Spec and gets region "-" (→ VIOLATION). -/
 
 def nats (bs : List UInt8) : List Nat := bs.map (·.toNat)
 def hexN (ns : List Nat) : String := hex (ns.map UInt8.ofNat)
@@ -31,24 +34,23 @@ def findCs (name : String) : Option Cs :=
     | some (_, "native") => some .native
     | _ => none
 
-def encGuard : Bool := Gms.Generated.C30.encodeHasLengthGuard
 def decGuard : Bool := Gms.Generated.C30.decodeHasLengthGuard
 
-/-- Impl model of `Encode`/`Decode` with the guards the source has now. -/
-def encodeI (t : RangeMap) (s extra : List Nat) : Res :=
-  convLoop (encodeRune t) encGuard t.inE.length extra (s.length + 1) s
+instance : BEq Res := ⟨fun a b => decide (a = b)⟩
+
+/-- Impl model of `Encode` (the repaired, guarded loop) and of `Decode` (with the guard the source has now). -/
+def encodeI (t : RangeMap) (s extra : List Nat) : Res := encode t s extra
 def decodeI (t : RangeMap) (s : List Nat) : Res :=
   convLoop (decodeRune t) decGuard t.inE.length [] (s.length + 1) s
 
+/-- `Encode` (model) differs from the Spec only through an overflow unit
+(`Gms.C30.encode_eq_spec_partial`); where the model equals the Spec there is no region. -/
 def encRegion (t : RangeMap) (s : List Nat) : String :=
-  if convLoop (encodeRune t) true t.inE.length [] (s.length + 1) s == encodeSpec t s
-  then "encode_unrepresentable_tail" else "encode_overflow_unit"
+  if encode t s == encodeSpec t s then "-" else "encode_overflow_unit"
 
 def repRegion (t : RangeMap) (s : List Nat) : String :=
   if replLoop (encodeRune t) false t.inE.length (s.length + 1) s == replaceSpec t s
   then "replace_tail_collapse" else "encode_overflow_unit"
-
-instance : BEq Res := ⟨fun a b => decide (a = b)⟩
 
 def ans (impl spec : String) (region : String) : String :=
   if impl == spec then answer impl else answer impl spec region
